@@ -107,7 +107,10 @@ def run(ctx, chk):
     width = {"u8": 8, "u16": 16, "u32": 32, "u64": 64, "usize": 64, "i8": 8, "i16": 16, "i32": 32, "i64": 64, "isize": 64}
     for p, fn in mir.fns.items():
         nm = mir_name(p)
-        if not (nm.startswith("binary::parser::") or nm.startswith("dr::loader::") or nm.startswith("binary::decoder::") or nm.startswith("binary::tracker::")):
+        fl_ = (fn.get("span") or {}).get("file", "")
+        in_scope = nm.startswith(("binary::parser::", "dr::loader::", "binary::decoder::", "binary::tracker::")) or \
+            fl_.endswith(("binary/parser.rs", "dr/loader.rs", "binary/decoder.rs", "binary/tracker.rs"))
+        if not in_scope:
             continue
         for b in fn["blocks"]:
             for s in b["s"]:
@@ -116,7 +119,7 @@ def run(ctx, chk):
                         continue
                     nn += 1
                     fnm = nm.split("::")[-1]
-                    in_split = nm.startswith("binary::parser::") and (fnm == "parse_inst" or callers.get(fnm) == {"parse_inst"})
+                    in_split = (fnm == "parse_inst" or (callers.get(fnm) or set()) <= {"parse_inst"} | {c_ for c_ in callers if (callers.get(c_) or set()) <= {"parse_inst"}})
                     chk.check(R7, in_split and split_ok and s["from"] == "u32" and s["to"] == "u16", "%s:%s->%s" % (fnm, s["from"], s["to"]),
                               "narrowing cast %s -> %s in %s" % (s["from"], s["to"], nm), where(s["span"]), key="C01:narrow:%s:%s->%s" % (fnm, s["from"], s["to"]))
     chk.floor(R7, "narrowing casts audited", nn, 2)
